@@ -45,12 +45,8 @@ Print Assumptions C17_step_total.
 
 (* iterators: the result of an [Iter] script is the list of the results of its calls (Next, Prev,
    First, Last, Begin, End, NextTo, PrevTo, in any order, any number of them); a call that would
-   follow a nil pointer would end that list with the crash marker.  It never does.
-   For the BTree the statement is restricted to trees of fewer than 2^65 entries: the model's B-tree
-   iterator (Model/BTreeIter.v) descends with a constant fuel of 64 levels where the Go code loops,
-   a limit of the model and not of the library (Proofs/IterTreeBT.v). *)
+   follow a nil pointer would end that list with the crash marker.  It never does. *)
 Theorem C17_iter_total : forall c ops cs, config_ok c ->
-  (ckind c = BTree -> size_of c (run c ops) < 2 ^ 65) ->
   ~ In ocrash (run_iter c (run c ops) cs).
 Proof. exact MachineInv.C17_iter_total. Qed.
 Print Assumptions C17_iter_total.
